@@ -246,6 +246,7 @@ class ValueGen(object):
             if x < 0.5:
                 v = rnd.choice([0.0, 1.0, -1.0, 0.5, 255.0, 16777215.0, 1.17549435e-38,
                                 3.4028234663852886e+38, 1.401298464324817e-45, 0.15625])
+                v = struct.unpack('>f', struct.pack('>f', v))[0]       # exactly representable in binary32
             else:
                 v = struct.unpack('>f', struct.pack('>I', rnd.getrandbits(32)))[0]
                 if math.isnan(v) or math.isinf(v):
